@@ -21,6 +21,10 @@ RULES: Dict[str, str] = {
     'R-PERCALL-ESCAPE': 'sa.rules.effects:run_percall_escape',
     'R-COMPILE-COPIES': 'sa.rules.effects:run_compile_copies',
     'R-SORT-TOTAL': 'sa.rules.sorttotal:run',
+    'R-CONFIG-FORWARD': 'sa.rules.structure:run_config_forward',
+    'R-OVERWRITTEN-STORE': 'sa.rules.structure:run_overwritten',
+    'R-COPY-COVERS': 'sa.rules.structure:run_copy_covers',
+    'R-SPLIT-ARMS': 'sa.rules.structure:run_split_arms',
     'R-SCAN-BUFFER': 'sa.rules.forest:run_scan_buffer',
     'R-IDENTITY-EQ': 'sa.rules.eqhash:run_identity',
     'R-SPLIT-TOTAL': 'sa.rules.indenter:run_split_total',
@@ -80,7 +84,7 @@ def _p(rules, decides, not_decided, technique, extra_assume=()):
 
 
 PROPERTIES.update({
-    'C03': _p(['R-EQHASH', 'R-KEEP-PRED', 'R-PREFIX-PROTOCOL', 'R-AMBIG-INDEX', 'R-NODE-NAME', 'R-SENTINEL-SLOTS', 'R-SHALLOW-FORK'],
+    'C03': _p(['R-EQHASH', 'R-KEEP-PRED', 'R-PREFIX-PROTOCOL', 'R-AMBIG-INDEX', 'R-NODE-NAME', 'R-SENTINEL-SLOTS', 'R-SHALLOW-FORK', 'R-CONFIG-FORWARD'],
               'the predicates deciding whether a symbol stays in the tree agree (truth tables); generated helper names carry the prefix '
               'their consumers strip and users cannot define; wrapper-chain order matches the index computations; node names are '
               'computed identically by all engines; eq/hash contract of the CNF classes (CYK sets); child slots of the forest-to-tree '
@@ -106,13 +110,13 @@ PROPERTIES.update({
               'character is chosen per representation.',
               'text[start:end] == token (regex semantics); nesting of spans for all grammars.',
               'argument-binding family check, CFG must-precede, linear-normal-form dataflow, predicate exhaustiveness table'),
-    'C07': _p(['R-LEX-PRECEDENCE', 'R-SERIAL-NORM', 'R-SORT-TOTAL'],
+    'C07': _p(['R-LEX-PRECEDENCE', 'R-SERIAL-NORM', 'R-SORT-TOTAL', 'R-OVERWRITTEN-STORE'],
               'the sort key is the documented precedence and the sorted list reaches the regex alternation unchanged (slice bounds of the '
               'chunking agree), for the basic lexer and every per-state lexer; the keyword exception is guarded by equal priority, a full '
               'match and a flag-subset test whose operands are sets on every construction path.',
               'tiling/coverage for all inputs; "contextual succeeds whenever basic does".',
               'sort-key normalisation against the documented order; def-use of the ordered list; guard extraction'),
-    'C08': _p(['R-EXC-DISCIPLINE', 'R-POS-AFFINITY', 'R-TOKEN-NONE-TEST', 'R-SPLIT-TOTAL', 'R-ACCEPTS-PURE', 'R-SORT-TOTAL', 'R-IDENTITY-EQ'],
+    'C08': _p(['R-EXC-DISCIPLINE', 'R-POS-AFFINITY', 'R-TOKEN-NONE-TEST', 'R-SPLIT-TOTAL', 'R-ACCEPTS-PURE', 'R-SORT-TOTAL', 'R-IDENTITY-EQ', 'R-INDENT-PAIRING'],
               'every raise reachable from parse() is an UnexpectedInput or a tabled configuration/internal/documented class; no broad handler '
               'swallows; EOFError of next_token is caught by every caller; the offending token / current position is what the error carries; '
               '$END borrows the last token whenever there is one (identity test, not truthiness); no partial split index on the input path.',
@@ -136,7 +140,7 @@ PROPERTIES.update({
               'instance restored; the fall-back rewrites the file in the reader\'s record order.',
               'value-level equality of the loaded parser (C11); atomicity of the write beyond what the read-side fallback makes harmless.',
               'def-use/taint inside Lark.__init__, CFG dominance and must-pass-through, writer/reader agreement'),
-    'C13': _p(['R-FORK-ALIAS', 'R-SHALLOW-FORK', 'R-TERM-NAME-PROTOCOL', 'R-ACCEPTS-PURE'],
+    'C13': _p(['R-FORK-ALIAS', 'R-SHALLOW-FORK', 'R-TERM-NAME-PROTOCOL', 'R-ACCEPTS-PURE', 'R-COPY-COVERS'],
               'copies made by the fork API share no state that feeding or lexing writes and are coherent (one copied lexer thread in both '
               'places); shallow forks are only fed with tree-building callbacks off; the terminal/non-terminal classification used by '
               'accepts() and the expected set recognises every name the loader can produce.',
@@ -148,13 +152,13 @@ PROPERTIES.update({
               'callbacks, candidates are searched among non-ignored terminals, the exploratory window carries the full text\'s line state.',
               'leftmost-longest, no-miss, equality with parse() of the substring.',
               'loop-progress rule on the CFG (must-pass-through an accepted position update), def-use of the yielded range'),
-    'C15': _p(['R-REPR-PARAM', 'R-WINDOW-BOUNDS', 'R-POS-AFFINITY'],
+    'C15': _p(['R-REPR-PARAM', 'R-WINDOW-BOUNDS', 'R-POS-AFFINITY', 'R-SPLIT-ARMS'],
               'no representation-specific constant touches input text outside an isinstance(bytes) split; every regex call on a window passes '
               'pos and the window end; loops are bounded by the end; counters start from the window. One unrepaired known finding: the start '
               'side (look-behind, ^, \\b see the buffer before the window).',
               'value-level equality of trees across representations.',
               'carrier-based constant-use audit; call-argument shape check with a semantics table for re\'s pos/endpos'),
-    'C16': _p(['R-XFORM-PARITY', 'R-NODE-NAME', 'R-STANDALONE-CLOSURE'],
+    'C16': _p(['R-XFORM-PARITY', 'R-NODE-NAME', 'R-STANDALONE-CLOSURE', 'R-AMBIG-INDEX'],
               'the four traversals and the embedded path implement the same dispatch, token guard (__visit_tokens__) and Discard filtering, '
               'children before parents; nodes are named identically at every site; the transformer classes work inside the generated module.',
               'equality of results for all grammars/transformers; once-per-node counting on DAGs.',
